@@ -32,6 +32,13 @@ R15f one conclusive state per invocation (producibility): the run-log generator 
      from one conclusive mark (tracking.mark_completed/failed/cancelled on the request or its command, directly or
      through _cancel_command, whose summary may mark Cancelled) to a different one, and no path from such a mark leaves
      the function by raising into the handler of _execute_command, which marks the request Failed.
+R15g attribution: a state recorded for a command request or command instance goes to that request's *own* invocation. Every
+     Tracking.mark_* method that CommandManager calls with a request or command takes the instance id it hands to
+     _add_record_state from the instance (`<instance>.instance_id`, directly, through a match capture or through a helper whose
+     returns are followed) - not only from `record.last_instance_id`, which is the *latest* invocation of the node: when a
+     macro or Alarm body invokes a UOD command again while the previous invocation's command is still running, the state of
+     the old request (Cancelled by the same-name rule) would land on the new invocation, in front of its Started, and
+     get_runlog() raises for the rest of the run.
 Decides these clauses; does not decide producibility for every runtime state order beyond R15f (the raise sites in
 _get_record_runlog_items depend on runtime data), nor monotonicity of the engine clock itself.
 """
@@ -460,6 +467,27 @@ def run(ctx) -> None:
             elif isinstance(i_expr, ast.Name) and r_def is not None and "get_record_by_instance" in norm(r_def) \
                     and _mentions(r_def, i_expr.id):
                 ok, why = True, "record looked up from the id"
+            if not ok and isinstance(i_def, ast.Call) and isinstance(i_def.func, ast.Attribute) and norm(i_def.func.value) == "self":
+                # a helper that picks the id: every value it returns is owned by the record it was given
+                hp = trk.find_method(i_def.func.attr)
+                pos = [k_ for k_, a_ in enumerate(i_def.args) if norm(a_) == rn]
+                if hp is not None and pos:
+                    hparams = [a_.arg for a_ in hp.node.args.args][1:]
+                    rp = hparams[pos[0]] if pos[0] < len(hparams) else None
+                    gh = cfg_of(hp)
+                    rets = [n_ for n_ in gh.nodes if n_.kind == "stmt" and isinstance(n_.ast, ast.Return) and n_.ast.value is not None]
+                    good = bool(rets) and rp is not None
+                    for rnode in rets:
+                        v = norm(rnode.ast.value)
+                        if v.startswith(f"{rp}.last_instance_id or self.create_node_instance_id("):
+                            continue
+                        fx = facts_at(gh, rnode, local_single_defs(hp))
+                        if not any(pol and a_.replace(" ", "") in (f"self.runtimeinfo.get_record_by_instance({v})is{rp}",
+                                                                   f"{rp}isself.runtimeinfo.get_record_by_instance({v})") for a_, pol in fx):
+                            good = False
+                    if good:
+                        ok, why = True, f"helper {hp.short} returns the record's last/fresh id or an id whose record is this record"
+                        ctx.analysed(hp)
             if not ok:
                 # multi-branch definitions (match statement): accept when every assignment to the id local is
                 # X.instance_id with the record looked up from the same X, or record.last_instance_id
@@ -731,6 +759,49 @@ def run(ctx) -> None:
                         ctx.ok("R15f", inst)
     if n_f < 3:
         raise AnchorError(f"R15f: only {n_f} conclusive-mark pairs examined in CommandManager (floor 3)")
+    # ---------------------------------------------------------------- R15g
+    ctx.rule("R15g", "a state recorded for a request/command is attributed to that request's own invocation")
+    from ..util import value_leaves
+    trk = prog.cls("openpectus.lang.exec.tracking:Tracking")
+    cmcls = prog.cls(CMQ)
+    called: dict[str, list] = {}
+    for fn in cmcls.methods.values():
+        for c in walk_no_nested(fn.node):
+            if isinstance(c, ast.Call) and (call_attr(c) or "").startswith("mark_") and isinstance(c.func, ast.Attribute) \
+                    and norm(c.func.value).endswith("tracking") and c.args and isinstance(c.args[0], ast.Name):
+                # request / command arguments only (a node argument refers to the node's latest invocation by definition)
+                an = c.args[0].id
+                if an in [a.arg for a in fn.node.args.args] or an.startswith(("cmd", "command", "uod_command")):
+                    if "node" in an:
+                        continue
+                    called.setdefault(call_attr(c), []).append((fn, c))
+    n_g = 0
+    for mname, sites in sorted(called.items()):
+        m = trk.methods.get(mname)
+        if m is None:
+            raise AnchorError(f"Tracking.{mname} missing")
+        ctx.analysed(m)
+        adds = [c for c in walk_no_nested(m.node) if isinstance(c, ast.Call) and call_attr(c) == "_add_record_state" and c.args]
+        if not adds:
+            raise AnchorError(f"Tracking.{mname}: no _add_record_state call")
+        n_g += 1
+        inst = f"Tracking.{mname}: the state goes to the instance's own invocation"
+        bad_add = None
+        for a in adds:
+            leaves = value_leaves(ctx.res, a.args[0], m)
+            own = any(isinstance(lf_, ast.Attribute) and lf_.attr == "instance_id" for lf_, _ in leaves)
+            if not own:
+                bad_add = (a, leaves)
+        if bad_add is None:
+            ctx.ok("R15g", inst, {"rule": "R15g", "called_from": sorted({fn.short for fn, _ in sites})})
+        else:
+            a, leaves = bad_add
+            ctx.fail("R15g", m, a, inst, f"the instance id comes only from {sorted({norm(x) for x, _ in leaves})[:3]} - the latest invocation of the "
+                     f"node - although {sites[0][0].short} passes a request/command of a possibly earlier invocation: re-invoking a still "
+                     "running UOD command from a macro or Alarm body records the old request's Cancelled on the new invocation, and "
+                     "get_runlog() raises 'Error generating runlog' from then on")
+    if n_g < 4:
+        raise AnchorError(f"R15g: only {n_g} Tracking.mark_* methods are called from CommandManager with a request/command (floor 4)")
     # (3) a cancelled command has had its Cancelled state recorded when cancel() was applied. Paths on which a command that
     # `is_cancelled()` is given Completed/Failed exist in the executors (they finalize a cancelled command that is still
     # registered and then fall into the completion mark); they are dead only as long as every cancellation finalizes and
